@@ -244,6 +244,19 @@ reg(
     "DESIGN.md 4.2 C08",
 )
 
+reg(
+    "C02",
+    "dart.operation programs for snax_gemmx (matmul to i32 with and without zero points, matmul through a rescale stage to i8, gemm with C operand; M,N,K in "
+    "{8,16,24}) and snax_alu (1-D lengths 4..64, 2-D shapes) with the layouts chosen by the real set-memory-layout (tiled / untiled) or one operand at a time "
+    "given a hand-written tiled-strided layout (tile order swapped, column-major inner tile, padded tile strides) go through the real insert-accfg-op, "
+    "dart-scheduler, set-memory-layout, dart-layout-resolution, convert-dart-to-snax-stream incl. each accelerator's set_stride_patterns. For every operand the "
+    "sequence of byte sets the streamer touches per temporal step of its final StridePattern must equal, step by step, the byte sets of the elements the "
+    "schedule assigns to that step under the operand's layout (independent evaluators for streamer, schedule and layout); every operand streamed by exactly one enabled streamer.",
+    "Trusted: machines/stream.py (8-byte ports, index 0 fastest), machines/layout.py, the schedule reading in checks/C02.py. snax_xdma extensions are not covered (no registered accelerator instance; the AddExtension's hard-coded 512-byte operand distance is noted in DESIGN.md). 20 recorded known findings (given layouts with a column-major inner tile).",
+    "bounded-exhaustive program enumeration, step-by-step comparison of two executed address streams against independent reference evaluators",
+    "DESIGN.md 4.2 C02",
+)
+
 NOT_APPLICABLE = []
 
 ALL = [f"C{i:02d}" for i in range(1, 21)]
